@@ -172,4 +172,24 @@ theorem projection_spec (ps : List Proj) (r : Row) (hb : ∀ p ∈ ps, p.binding
   · rw [out_of_alias p ha]
     exact sim_get_alias ps r hn r p hp ha c hc
 
+/-- The reference's projection does not depend on the order of the SELECT list: every column shows the same
+    cell (output names distinct, bindings non-empty). -/
+theorem project_perm (ps ps' : List Proj) (hp : ps.Perm ps') (hn : (ps.map Proj.out).Nodup)
+    (hb : ∀ p ∈ ps, p.binding ≠ []) (r : Row) (k : Bytes) :
+    (project ps r).get k = (project ps' r).get k := by
+  have hn' : (ps'.map Proj.out).Nodup := (hp.map Proj.out).nodup_iff.mp hn
+  have hone : ∀ p ∈ ps, p.out ≠ [] := by
+    intro p hpm
+    by_cases ha : p.alias = []
+    · rw [out_of_noalias p ha]; exact hb p hpm
+    · rw [out_of_alias p ha]; exact ha
+  by_cases hk : ∃ p ∈ ps, p.out = k
+  · obtain ⟨p, hpm, e⟩ := hk
+    subst e
+    rw [project_eq, project_eq, spec_get ps r hn [] p hpm (hone p hpm),
+      spec_get ps' r hn' [] p (hp.mem_iff.mp hpm) (hone p hpm)]
+  · have h1 : ∀ p ∈ ps, p.out ≠ k := fun p hpm e => hk ⟨p, hpm, e⟩
+    have h2 : ∀ p ∈ ps', p.out ≠ k := fun p hpm e => hk ⟨p, hp.mem_iff.mpr hpm, e⟩
+    rw [project_eq, project_eq, spec_get_other ps r [] k h1, spec_get_other ps' r [] k h2]
+
 end BW.Proofs.Projection
